@@ -10,14 +10,17 @@
    panic sites (scope arithmetic, `before - remaining`) are unreachable (C04_adjacent_group_total);
    documentation generation and console rendering return (C04_documentation_returns,
    C04_console_rendering_returns).
+   Error rendering returns for EVERY definition (C04_error_rendering_returns: the evaluator reports only
+   messages whose positions are items of the line; Message::render then has a document).
    Not theorems: (a) adjacent groups with subcommands or nested groups as members, or
    without a first item (that one panics: known finding) -- their FUEL/panic outcomes are explicit in the
-   model and compared with the implementation, (b) the panic sites of message rendering and completion
+   model and compared with the implementation, (b) the panic sites of completion
    (compared per run), (c) purity -- Gallina functions are pure by construction; the implementation is
    re-run on the same OptionParser and after other operations (driver modes `twice`, `history`). *)
 From Coq Require Import List Arith.
 From BpafModel Require Import Conv Wf Docs Console Message.
-From BpafLemmas Require Import Tac EvalEq Reach LoopLaws TotalLaws AdjLaws AdjTotal TotalAll AbsSim AbsTotal ConvRefine ConvTotal HtmlLaws BalLaws ConsoleLaws MessageLaws.
+From Coq Require Import String.
+From BpafLemmas Require Import Tac EvalEq Reach LoopLaws TotalLaws AdjLaws AdjTotal TotalAll AbsSim AbsTotal ConvRefine ConvTotal HtmlLaws BalLaws ConsoleLaws MessageLaws MsgOk.
 Import ListNotations.
 
 (* `remaining <= number of items` (and the item-state vector has the length of the item list)
@@ -134,20 +137,64 @@ Proof. exact render_console_returns. Qed.
 Print Assumptions C04_console_rendering_returns.
 
 (* error rendering (Message::render, Model/Message.v) indexes the item list by the positions a message
-   records: it returns whenever those positions are items of the line -- `msg_ok`: the unconsumed item, the
-   argument name without a value, the ambiguous cluster (at least two characters), the scopes of missing items
-   inside the ledger with the position not beyond their end (State::set_scope would panic otherwise).
-   PARTIAL: that the evaluator only reports such messages is decided by the differential run (the model's
-   `None` = the library's panic), not proved *)
-Theorem C04_error_rendering_returns_partial :
-  forall msg s, msg_ok (length (items s)) msg -> render_doc (RPlain msg) s <> None.
-Proof. exact render_plain_returns. Qed.
-Print Assumptions C04_error_rendering_returns_partial.
+   records.  For EVERY parser of the model (no well-formedness premise: any members of adjacent groups, any
+   nesting) an error handed out by the evaluation from a well-formed state records only positions of the line:
+   the argument name without a value is an item, the scopes of missing items are inside the ledger with the
+   position not beyond their end (State::set_scope would panic otherwise)  (MsgOk.v: mutual induction over the
+   parser) *)
+Theorem C04_reported_messages_name_positions :
+  forall env p s, G s -> eok (length (items s)) (fst (eval env p s)).
+Proof. exact (fun env => proj1 (eval_okmsg_all env)). Qed.
+Print Assumptions C04_reported_messages_name_positions.
 
-Theorem C04_missing_summary_returns_partial :
-  forall xs m s, Forall (miss_ok (length (ist s))) xs -> summarize_missing xs m s <> None.
-Proof. exact summarize_missing_returns. Qed.
-Print Assumptions C04_missing_summary_returns_partial.
+(* ... the marks left by the choice between alternatives name positions of the line in every state an
+   evaluation can reach (the winner recorded by State::save_conflicts comes from State::pick_winner) *)
+Theorem C04_conflict_marks_name_positions :
+  forall K s s', reach K s s' -> cw_ok s -> cw_ok s'.
+Proof. exact reach_cw. Qed.
+Print Assumptions C04_conflict_marks_name_positions.
+
+(* ... so Message::render returns a document for every such message: no index out of range, no unwrap of None,
+   no panicking State::set_scope in the summary of missing items, whatever conflict / only-once / `did you mean`
+   rewriting applies *)
+Theorem C04_message_rendering_returns :
+  forall msg s m,
+    G s -> cw_ok s -> mok (length (items s)) msg ->
+    match msg with MsgParseFailure _ => False | _ => True end ->
+    render_message msg s m <> None.
+Proof. exact render_message_returns. Qed.
+Print Assumptions C04_message_rendering_returns.
+
+(* ... hence for EVERY definition, every vector and environment: a failure the top level reports (the tokenizer's
+   ambiguity message included) has a document, and so has the failure ANY command level reports itself, from any
+   well-formed state (a failure handed out of a subcommand was rendered there, by the same theorem) *)
+Theorem C04_error_rendering_returns :
+  forall env feat q inf name argv m s',
+    run_inner_state feat env (Options q inf) name argv = (SFail (FStderr m), s') ->
+    (forall f, fst (eval env q (fst (initial_state (Options q inf) name argv))) <> RErr (MsgParseFailure f)) ->
+    render_message m s' (meta_of q) <> None.
+Proof. exact run_inner_renders. Qed.
+Print Assumptions C04_error_rendering_returns.
+
+Theorem C04_level_error_rendering_returns :
+  forall env q inf s m s2,
+    G s -> cw_ok s ->
+    run_sub env (Options q inf) s = (SFail (FStderr m), s2) ->
+    (forall f, fst (eval env q s) <> RErr (MsgParseFailure f)) ->
+    render_message m s2 (meta_of q) <> None.
+Proof. exact run_sub_renders. Qed.
+Print Assumptions C04_level_error_rendering_returns.
+
+(* non-vacuity: `-a -b` with exclusive alternatives: the conflict message is rendered *)
+Example C04_example_error_rendered :
+  let p := POr (PFlag (mkNamed [97%N] [] [] None) VUnit None) (PFlag (mkNamed [98%N] [] [] None) VUnit None) in
+  match run_inner_state (mkFeat true true false) (fun _ => None) (Options p default_info) None [[45;97]%N; [45;98]%N] with
+  | (SFail (FStderr m), s') =>
+    option_map (fun d => utf8_encode d) (render_message_text true m s' (meta_of p)) =
+    Some (bs "`-b` cannot be used at the same time as `-a`"%string)
+  | _ => False
+  end.
+Proof. vm_compute. reflexivity. Qed.
 
 (* the premises are met: a definition with a subcommand, an alternative, repetition and a guard *)
 Example C04_example_oko :
